@@ -42,6 +42,21 @@ theorem attic_target_fresh (st : St σ κ) (hb : AtticBelow st) (e : Loc × κ) 
     simp only [Loc.under, Bool.and_eq_false_imp, beq_iff_eq]
     intro h; omega
 
+/-- new checkouts go to paths that do not exist: when the collision check passes, the directory of
+every new SCM that the old state does not know (other than ".") is absent from the workspace -/
+theorem fresh_checkout_path_free (new : List (NewEntry σ)) (st : St σ κ) (h : collision new st = none)
+    (n : NewEntry σ) (hn : n ∈ new) (hdot : n.dir ≠ ".") (hold : ∀ e, e ∈ st.old → e.dir ≠ n.dir) :
+    existsWs st (normComps n.dir) = false := by
+  unfold collision at h
+  rw [List.find?_eq_none] at h
+  have hmem : n.dir ∈ sortedNewDirs new := by
+    unfold sortedNewDirs
+    exact (List.mergeSort_perm _ _).mem_iff.mpr (List.mem_map.mpr ⟨n, hn, rfl⟩)
+  have := h n.dir hmem
+  simp only [Bool.and_eq_true, bne_iff_ne, ne_eq, Bool.not_eq_true', List.any_eq_false, beq_iff_eq,
+    not_and, Bool.not_eq_true] at this
+  exact this hdot (fun e he => hold e he)
+
 /-- the moved directory keeps every nested SCM directory: the contents are the same, only the
 location changes (`os.rename`) -/
 theorem move_keeps_contents (p : Comps) (n : Nat) (fs : List (Loc × κ)) :
